@@ -47,7 +47,8 @@ EXPECTED_PROBES = ["skip_name_at_depth_ge2", "skip_name_absent", "skip_name_is_a
                    "skip_name_is_group", "skip_name_is_path_attr", "type_skip_subclass_hit",
                    "skip_name_repeated_across_levels", "skip_as_bare_string", "type_skip_removed",
                    "one_object_under_two_names", "shared_object_skipped_under_one_name_only",
-                   "third_generation", "empty_skip_argument", "cycle_closed_by_a_skipped_attribute"]
+                   "third_generation", "empty_skip_argument", "cycle_closed_by_a_skipped_attribute",
+                   "dotted_skip_name_child_dot_attr"]
 
 LEAF_KINDS = ["int", "float", "bool", "none", "str", "path", "list", "tuple", "dict", "set", "nd",
               "npscalar", "tensor", "module", "numseq"]
@@ -129,6 +130,15 @@ def gen(rng: Rng, tier, i):
     r = rng.fork("skip")
     S = r.subset(present, p=r.pick([0.15, 0.3, 0.6]), at_least=1)
     S += r.subset(["absent1", "zz", "values", "0", "summary", "kind"], p=0.3)
+    # a DOTTED name built from the graph's structure: "<attribute holding a child>.<attribute of that
+    # child>" is one (absent) name, not a path - nothing may be removed because of it
+    dr = rng.fork("dotted")
+    kids_ = [(n, s_) for n, s_ in g["attrs"] if s_["k"] == "obj" and s_["attrs"]]
+    if kids_ and dr.chance(0.25):
+        cn, cs = dr.pick(kids_)
+        dotted = f"{cn}.{dr.pick([a for a, _ in cs['attrs']])}"
+        if dotted not in present:
+            S.append(dotted)
     r.shuffle(S)
     cut = r.randrange(len(S) + 1)
     S1, S2 = S[:cut], S[cut:]
@@ -246,6 +256,9 @@ def run(plan):
                 bump(res["probes"], "skip_name_is_path_attr")
     if any(n not in {x for x, _, _ in names} for n in S):
         bump(res["probes"], "skip_name_absent")
+    _top = {n for n, d, k in names if d == 0 and k == "obj"}
+    if any("." in n and n.split(".", 1)[0] in _top and n not in {x for x, _, _ in names} for n in S):
+        bump(res["probes"], "dotted_skip_name_child_dot_attr")
     depth_of = {}
     for n, d, _ in names:
         depth_of.setdefault(n, set()).add(d)
